@@ -196,12 +196,16 @@ func HarnessC12_Lookback() {
 	// status they had at tau (one toggle, as the timestamps reveal)
 	tau := vfI64("tau")
 	vfAssume(vfAnd(tau >= now-lookS, tau <= now))
+	// Timestamps have second precision: an event stamped with second T may
+	// have happened after an instant of second T that lies inside the window.
+	// edge=1 takes events stamped exactly tau as "after tau".
+	edge := vfChoice("edge", 2) == 1
 	past := NewDesc()
 	for id, ing := range d.Ingesters {
-		if ing.RegisteredTimestamp > tau {
+		if ing.RegisteredTimestamp > tau || (edge && ing.RegisteredTimestamp == tau) {
 			continue // not yet registered at tau
 		}
-		if ing.ReadOnlyUpdatedTimestamp > tau {
+		if ing.ReadOnlyUpdatedTimestamp > tau || (edge && ing.ReadOnlyUpdatedTimestamp == tau) {
 			ing.ReadOnly = !ing.ReadOnly // the status was toggled after tau
 		}
 		past.Ingesters[id] = ing
